@@ -276,7 +276,9 @@ func opHD(h *HState, a Event) Event {
 			src := pl.keys[gInt(a, "src")]
 			env = append(env, envForKey(payloadOf(src))...)
 			k, err := src.Neuter()
-			e["same"] = k == src
+			if observeNeuterIdentity { // only C15 states which OBJECT Neuter returns for an already-public key
+				e["same"] = k == src
+			}
 			setResult(k, err)
 		case "Parse":
 			s := gStr(a, "s")
@@ -450,6 +452,10 @@ func opShortKeyString(_ *HState, a Event) Event {
 	})
 	return panicField(e, p, msg)
 }
+
+// observeNeuterIdentity is switched on by the C15 family (the property documents that neutering an already-public key
+// returns that same key); C04 / C05 say nothing about object identity.
+var observeNeuterIdentity bool
 
 // wifNet: the configured net, or a copy of it with another private-key identifier byte ("netid" >= 0 in the call)
 func wifNet(a Event) *chaincfg.Params {
